@@ -143,6 +143,9 @@ ReopenPreds(s, op, x) ==
   \* (a read-only mapping cannot grow the file: its capacity is at most the file length)
   <<"C05", "CapacityCoversAllocated", (ro \/ op.cap = 0 \/ o.cap = op.cap) /\ o.cap >= o.alloc /\ o.rem = o.cap - o.alloc>>,
   <<"C09", "ReadOnlyFlag", x.descr.read_only = ro>>,
+  \* capacity() of a read-only arena is what the file holds (a read-only open cannot grow it): never more than the bytes
+  \* of the file from the mapping offset on, whatever capacity was asked for
+  <<"C16", "ReadOnlyCapacityWithinFile", ro => (o.cap <= x.file_after.len /\ x.descr.capacity <= x.file_after.len)>>,
   <<"C16", "AccessorsAfterReopen", /\ x.descr.is_map /\ x.descr.is_ondisk /\ ~x.descr.is_inmemory /\ ~x.descr.is_map_anon
                                    /\ x.descr.is_map_file /\ x.descr.has_path /\ x.descr.page_size = x.descr.os_page_size
                                    /\ x.descr.reserved_bytes = ReservedOf(cfg) /\ x.descr.data_offset = DataOffsetOf(ReservedOf(cfg), TRUE)
